@@ -1,0 +1,95 @@
+//! Read-only access to crate-private parts of the tree for the runtime monitors in `/verif`.
+//!
+//! Only compiled with the cargo feature `verif` (off by default). Nothing in here changes
+//! behaviour: the functions copy crate-private fields into plain public data.
+
+use java_string::JavaString;
+use crate::tree::annotation::Annotation;
+use crate::tree::attribute::Attribute;
+use crate::tree::method::code::{Label, LabelRange};
+use crate::tree::module::Module;
+use crate::tree::record::RecordComponent;
+use crate::tree::type_annotation::{TargetInfoField, TypeAnnotation, TypePath, TypePathKind};
+use crate::tree::version::Version;
+
+pub fn label_id(label: &Label) -> u16 {
+	label.id
+}
+
+pub fn label_range(range: &LabelRange) -> (u16, u16) {
+	(range.start.id, range.end.id)
+}
+
+pub fn version(version: &Version) -> (u16, u16) {
+	(version.major, version.minor)
+}
+
+/// Each step as `(type_path_kind, type_argument_index)` like in the class file.
+pub fn type_path(path: &TypePath) -> Vec<(u8, u8)> {
+	path.path.iter()
+		.map(|kind| match kind {
+			TypePathKind::ArrayDeeper => (0, 0),
+			TypePathKind::NestedDeeper => (1, 0),
+			TypePathKind::WildcardBound => (2, 0),
+			TypePathKind::TypeArgument { index } => (3, *index),
+		})
+		.collect()
+}
+
+#[derive(Debug, Clone, PartialEq)]
+pub struct ModuleView {
+	pub name: JavaString,
+	pub flags: u16,
+	pub version: Option<JavaString>,
+	/// `(name, flags, version)`
+	pub requires: Vec<(JavaString, u16, Option<JavaString>)>,
+	/// `(package, flags, to)`
+	pub exports: Vec<(JavaString, u16, Vec<JavaString>)>,
+	/// `(package, flags, to)`
+	pub opens: Vec<(JavaString, u16, Vec<JavaString>)>,
+	pub uses: Vec<JavaString>,
+	/// `(service, with)`
+	pub provides: Vec<(JavaString, Vec<JavaString>)>,
+}
+
+pub fn module(module: &Module) -> ModuleView {
+	ModuleView {
+		name: module.name.clone().into_inner(),
+		flags: module.flags.into(),
+		version: module.version.clone(),
+		requires: module.requires.iter()
+			.map(|r| (r.name.clone().into_inner(), r.flags.into(), r.version.clone()))
+			.collect(),
+		exports: module.exports.iter()
+			.map(|e| (e.name.clone().into_inner(), e.flags.into(), e.exports_to.iter().map(|x| x.clone().into_inner()).collect()))
+			.collect(),
+		opens: module.opens.iter()
+			.map(|o| (o.name.clone().into_inner(), o.flags.into(), o.opens_to.iter().map(|x| x.clone().into_inner()).collect()))
+			.collect(),
+		uses: module.uses.iter().map(|x| x.clone().into_inner()).collect(),
+		provides: module.provides.iter()
+			.map(|p| (p.name.clone().into_inner(), p.provides_with.iter().map(|x| x.clone().into_inner()).collect()))
+			.collect(),
+	}
+}
+
+#[derive(Debug, Clone, PartialEq)]
+pub struct RecordComponentView<'a> {
+	pub signature: Option<JavaString>,
+	pub runtime_visible_annotations: &'a [Annotation],
+	pub runtime_invisible_annotations: &'a [Annotation],
+	pub runtime_visible_type_annotations: &'a [TypeAnnotation<TargetInfoField>],
+	pub runtime_invisible_type_annotations: &'a [TypeAnnotation<TargetInfoField>],
+	pub attributes: &'a [Attribute],
+}
+
+pub fn record_component(component: &RecordComponent) -> RecordComponentView<'_> {
+	RecordComponentView {
+		signature: component.signature.clone().map(|s| s.into_inner()),
+		runtime_visible_annotations: &component.runtime_visible_annotations,
+		runtime_invisible_annotations: &component.runtime_invisible_annotations,
+		runtime_visible_type_annotations: &component.runtime_visible_type_annotations,
+		runtime_invisible_type_annotations: &component.runtime_invisible_type_annotations,
+		attributes: &component.attributes,
+	}
+}
